@@ -647,4 +647,189 @@ theorem markRadicals_spec (counts rad : List Nat) :
     have := s2 i hi
     simpa using this
 
+/-! ## molecules as (components, radical flags): two molecules may print identically and differ in their marks -/
+
+/-- a written molecule: its component strings and the radical flags of its atoms in the written order -/
+abbrev WMol := List Str × List Bool
+
+def sigOfW (x : WMol) : MolSig := ⟨join chDot x.1, x.1.length, x.2⟩
+
+theorem foldl_molStep_contractW (ms : List WMol) :
+    ∀ acc : FmtAcc, ((ms.map sigOfW).foldl molStep acc).contract = acc.contract ++ groupsFrom acc.count (ms.map Prod.fst) := by
+  induction ms with
+  | nil => intro acc; simp [groupsFrom]
+  | cons m rest ih =>
+    intro acc
+    simp only [List.map_cons, List.foldl_cons]
+    rw [ih]
+    have e : groupsFrom acc.count (m.1 :: rest.map Prod.fst) =
+        (if m.1.length > 1 then [(List.range m.1.length).map (· + acc.count)] else [])
+          ++ groupsFrom (if m.1.length > 1 then acc.count + m.1.length else acc.count + 1) (rest.map Prod.fst) := by
+      rw [groupsFrom]
+    rw [e]
+    unfold molStep sigOfW
+    by_cases hk : m.1.length > 1
+    · simp only [hk, if_true, List.append_assoc, List.singleton_append]
+    · simp only [hk, if_false, List.nil_append]
+
+theorem foldl_molStep_radicalsW (ms : List WMol) :
+    ∀ acc : FmtAcc, ((ms.map sigOfW).foldl molStep acc).radicals = acc.radicals ++ (ms.map Prod.snd).flatten := by
+  induction ms with
+  | nil => intro acc; simp
+  | cons m rest ih =>
+    intro acc
+    simp only [List.map_cons, List.foldl_cons, List.flatten_cons]
+    rw [ih]
+    unfold molStep sigOfW
+    by_cases hk : m.1.length > 1
+    · simp only [hk, if_true, List.append_assoc]
+    · simp only [hk, if_false, List.append_assoc]
+
+theorem formatCoreW (R A P : List WMol) :
+    formatCore true (R.map sigOfW) (A.map sigOfW) (P.map sigOfW) =
+      ⟨[(R.map Prod.fst).map (join chDot), (A.map Prod.fst).map (join chDot), (P.map Prod.fst).map (join chDot)],
+       trueIdx ((R ++ A ++ P).map Prod.snd).flatten,
+       groupsFrom 0 ((R ++ A ++ P).map Prod.fst)⟩ := by
+  unfold formatCore sortRole trueIdx
+  simp only [if_true, ← List.map_append]
+  rw [foldl_molStep_radicalsW, foldl_molStep_contractW]
+  simp [sigOfW, List.map_map, Function.comp_def]
+
+/-- roles and molecules are restored (general form of `read_format`) -/
+theorem read_formatW (R A P : List WMol)
+    (hR : WrittenOK (R.map Prod.fst)) (hA : WrittenOK (A.map Prod.fst)) (hP : WrittenOK (P.map Prod.fst))
+    (hne : R ++ A ++ P ≠ [])
+    (hsp : ∀ m ∈ R ++ A ++ P, ∀ f ∈ m.1, ∀ c ∈ f, isSpace c = false) :
+    readRxn (formatRxn true false (R.map sigOfW) (A.map sigOfW) (P.map sigOfW)) =
+      .roles ((R.map Prod.fst).map (join chDot)) ((A.map Prod.fst).map (join chDot)) ((P.map Prod.fst).map (join chDot)) ∧
+    radicalsOf (splitWs (formatRxn true false (R.map sigOfW) (A.map sigOfW) (P.map sigOfW))) =
+      trueIdx ((R ++ A ++ P).map Prod.snd).flatten := by
+  have hne1 : R.map Prod.fst ++ A.map Prod.fst ++ P.map Prod.fst ≠ [] := by
+    rw [← List.map_append, ← List.map_append]
+    intro h; exact hne (List.map_eq_nil_iff.mp h)
+  have hsp1 : ∀ m ∈ R.map Prod.fst ++ A.map Prod.fst ++ P.map Prod.fst, ∀ f ∈ m, ∀ c ∈ f, isSpace c = false := by
+    intro m hm
+    rw [← List.map_append, ← List.map_append] at hm
+    obtain ⟨x, hx, rfl⟩ := List.mem_map.mp hm
+    exact hsp x hx
+  have neAll : ∀ m ∈ R.map Prod.fst ++ A.map Prod.fst ++ P.map Prod.fst, m ≠ [] := by
+    intro m hm
+    simp only [List.mem_append] at hm
+    rcases hm with (h | h) | h
+    · exact (hR m h).1
+    · exact (hA m h).1
+    · exact (hP m h).1
+  unfold formatRxn
+  rw [formatCoreW]
+  have roleChars : ∀ X : List (List Str), (∀ m ∈ X, m ∈ R.map Prod.fst ++ A.map Prod.fst ++ P.map Prod.fst) →
+      ∀ c ∈ join chDot (X.map (join chDot)), isSpace c = false := by
+    intro X hX c hc'
+    rcases mem_join chDot _ c hc' with h | ⟨p, hp, hcp⟩
+    · subst h; decide
+    · obtain ⟨m, hm, e⟩ := List.mem_map.mp hp
+      subst e
+      rcases mem_join chDot m c hcp with h | ⟨f, hf, hcf⟩
+      · subst h; decide
+      · exact hsp1 m (hX m hm) f hf c hcf
+  have hsig : ∀ c ∈ join chGt ([(R.map Prod.fst).map (join chDot), (A.map Prod.fst).map (join chDot),
+      (P.map Prod.fst).map (join chDot)].map (join chDot)), isSpace c = false := by
+    intro c hc'
+    rcases mem_join chGt _ c hc' with h | ⟨p, hp, hcp⟩
+    · subst h; decide
+    · simp only [List.map_cons, List.map_nil, List.mem_cons, List.mem_nil_iff, or_false] at hp
+      rcases hp with h | h | h
+      · subst h; exact roleChars _ (fun m hm => by simp [hm]) c hcp
+      · subst h; exact roleChars _ (fun m hm => by simp [hm]) c hcp
+      · subst h; exact roleChars _ (fun m hm => by simp [hm]) c hcp
+  have hsne : join chGt ([(R.map Prod.fst).map (join chDot), (A.map Prod.fst).map (join chDot),
+      (P.map Prod.fst).map (join chDot)].map (join chDot)) ≠ [] := by
+    simp [join]
+  refine ⟨?_, radicalsOf_render _ _ _ hsig hsne (trueIdx_nodup _)⟩
+  have hgs : ∀ g ∈ groupsFrom 0 ((R ++ A ++ P).map Prod.fst), 2 ≤ g.length := by
+    intro g hg
+    obtain ⟨k, s', hk, e⟩ := groupsFrom_shape _ 0 g hg
+    rw [e]; simpa using hk
+  have e3 : (R ++ A ++ P).map Prod.fst = R.map Prod.fst ++ A.map Prod.fst ++ P.map Prod.fst := by
+    simp only [List.map_append]
+  rw [readRxn_render _ _ _ hsig hsne hgs (by rw [e3]; exact groups_normalised _ neAll 0)]
+  have main := read_written (R.map Prod.fst) (A.map Prod.fst) (P.map Prod.fst) hR hA hP hne1
+    (groupsFrom 0 (R.map Prod.fst ++ A.map Prod.fst ++ P.map Prod.fst)) rfl
+  rw [e3]
+  simp only [List.map_cons, List.map_nil] at main ⊢
+  cases hcl : groupsFrom 0 (R.map Prod.fst ++ A.map Prod.fst ++ P.map Prod.fst) with
+  | nil => rw [hcl] at main; simp only [groupsOpt]; rw [readSmi_none]; exact main
+  | cons g gs => rw [hcl] at main; exact main
+
+/-- **write → read incl. radical marks, molecules as (components, flags)**: also when two molecules of a role print
+    identically and differ only in their radical marks (the `[Na]` / `[Na]•` tie) -/
+theorem read_format_radW (natoms : Str → Nat) (R A P : List WMol)
+    (hR : WrittenOK (R.map Prod.fst)) (hA : WrittenOK (A.map Prod.fst)) (hP : WrittenOK (P.map Prod.fst))
+    (hne : R ++ A ++ P ≠ [])
+    (hsp : ∀ m ∈ R ++ A ++ P, ∀ f ∈ m.1, ∀ c ∈ f, isSpace c = false)
+    (hn : ∀ m ∈ R ++ A ++ P, natoms (join chDot m.1) = m.2.length) :
+    readRxnRad natoms (formatRxn true false (R.map sigOfW) (A.map sigOfW) (P.map sigOfW)) =
+      .roles ((R.map Prod.fst).map (join chDot)) ((A.map Prod.fst).map (join chDot)) ((P.map Prod.fst).map (join chDot))
+        (R.map Prod.snd) (A.map Prod.snd) (P.map Prod.snd) := by
+  obtain ⟨hread, hrad⟩ := read_formatW R A P hR hA hP hne hsp
+  have hcounts : ((R.map Prod.fst).map (join chDot) ++ (A.map Prod.fst).map (join chDot) ++
+      (P.map Prod.fst).map (join chDot)).map natoms = ((R ++ A ++ P).map Prod.snd).map List.length := by
+    simp only [← List.map_append, List.map_map]
+    apply List.map_congr_left
+    intro m hm
+    exact hn m hm
+  have hm : markRadicals (((R.map Prod.fst).map (join chDot) ++ (A.map Prod.fst).map (join chDot) ++
+      (P.map Prod.fst).map (join chDot)).map natoms)
+      (radicalsOf (splitWs (formatRxn true false (R.map sigOfW) (A.map sigOfW) (P.map sigOfW)))) =
+      .ok ((R ++ A ++ P).map Prod.snd) := by
+    rw [hrad, hcounts]
+    exact markRadicals_trueIdx _
+  rw [readRxnRad_of_readRxn natoms _ _ _ _ _ hread hm]
+  have t := take_drop3 (R.map Prod.snd) (A.map Prod.snd) (P.map Prod.snd)
+  simp only [List.length_map] at t ⊢
+  rw [List.map_append, List.map_append, t.1, t.2.1, t.2.2]
+
+theorem read_format_radW_sorted (natoms : Str → Nat) (R A P : List WMol)
+    (hR : WrittenOK (R.map Prod.fst)) (hA : WrittenOK (A.map Prod.fst)) (hP : WrittenOK (P.map Prod.fst))
+    (hne : R ++ A ++ P ≠ [])
+    (hsp : ∀ m ∈ R ++ A ++ P, ∀ f ∈ m.1, ∀ c ∈ f, isSpace c = false)
+    (hn : ∀ m ∈ R ++ A ++ P, natoms (join chDot m.1) = m.2.length) :
+    ∃ R' A' P' : List WMol, R'.Perm R ∧ A'.Perm A ∧ P'.Perm P ∧
+      readRxnRad natoms (formatRxn false false (R.map sigOfW) (A.map sigOfW) (P.map sigOfW)) =
+        .roles ((R'.map Prod.fst).map (join chDot)) ((A'.map Prod.fst).map (join chDot)) ((P'.map Prod.fst).map (join chDot))
+          (R'.map Prod.snd) (A'.map Prod.snd) (P'.map Prod.snd) := by
+  obtain ⟨R', pR, eR⟩ := perm_map_inv sigOfW (sortRole false (R.map sigOfW)) R
+    (by unfold sortRole; simp only [Bool.false_eq_true, if_false]; exact List.mergeSort_perm _ _)
+  obtain ⟨A', pA, eA⟩ := perm_map_inv sigOfW (sortRole false (A.map sigOfW)) A
+    (by unfold sortRole; simp only [Bool.false_eq_true, if_false]; exact List.mergeSort_perm _ _)
+  obtain ⟨P', pP, eP⟩ := perm_map_inv sigOfW (sortRole false (P.map sigOfW)) P
+    (by unfold sortRole; simp only [Bool.false_eq_true, if_false]; exact List.mergeSort_perm _ _)
+  refine ⟨R', A', P', pR, pA, pP, ?_⟩
+  have hsort : formatRxn false false (R.map sigOfW) (A.map sigOfW) (P.map sigOfW) =
+      formatRxn true false (R'.map sigOfW) (A'.map sigOfW) (P'.map sigOfW) := by
+    rw [eR, eA, eP]; rfl
+  rw [hsort]
+  have wok : ∀ X X' : List WMol, X'.Perm X → WrittenOK (X.map Prod.fst) → WrittenOK (X'.map Prod.fst) := by
+    intro X X' p h m hm
+    obtain ⟨x, hx, rfl⟩ := List.mem_map.mp hm
+    exact h x.1 (List.mem_map.mpr ⟨x, p.subset hx, rfl⟩)
+  have sub : ∀ m ∈ R' ++ A' ++ P', m ∈ R ++ A ++ P := by
+    intro m hm
+    simp only [List.mem_append] at hm ⊢
+    rcases hm with (h | h) | h
+    · exact Or.inl (Or.inl (pR.subset h))
+    · exact Or.inl (Or.inr (pA.subset h))
+    · exact Or.inr (pP.subset h)
+  apply read_format_radW natoms R' A' P' (wok R R' pR hR) (wok A A' pA hA) (wok P P' pP hP)
+  · intro h
+    apply hne
+    have h1 := List.append_eq_nil_iff.mp h
+    have h2 := List.append_eq_nil_iff.mp h1.1
+    have r0 : R = [] := List.Perm.eq_nil (by have := pR.symm; rwa [h2.1] at this)
+    have a0 : A = [] := List.Perm.eq_nil (by have := pA.symm; rwa [h2.2] at this)
+    have p0 : P = [] := List.Perm.eq_nil (by have := pP.symm; rwa [h1.2] at this)
+    rw [r0, a0, p0]
+    rfl
+  · intro m hm; exact hsp m (sub m hm)
+  · intro m hm; exact hn m (sub m hm)
+
 end ChythonModel.Proofs.C15
